@@ -28,6 +28,8 @@ impl DonchianChannel {
 		r is Ok ==> r->Ok_0.inv() && r->Ok_0.cfg == self,
 		r is Ok ==> r->Ok_0.highest.window.view() =~= konst(self.period as nat, candle.high_s())
 			&& r->Ok_0.lowest.window.view() =~= konst(self.period as nat, candle.low_s()),
+		// C08: the constant state for the candle's high and low (donchian_const_step)
+		r is Ok ==> r->Ok_0.const_state(candle.high_s()@, candle.low_s()@),
 //@replace Ok(Self::Instance { ==> Ok(DonchianChannelInstance {
 //@end
 }
@@ -53,6 +55,20 @@ impl DonchianChannelInstance {
 		assert(hv[hv.len() - 1] == high && lv[lv.len() - 1] == low);
 	}
 //@end
+}
+
+// ---- C08 at indicator level: DonchianChannel fed the candle it was initialised with: lower = low, upper = high, middle their mean, no signal (both edges are touched at once)
+pub open spec fn all_eq(v: Seq<R>, s: real) -> bool { forall|i: int| 0 <= i < v.len() ==> (#[trigger] v[i])@ == s }
+impl DonchianChannelInstance {
+	pub open spec fn const_state(&self, h: real, l: real) -> bool { self.inv() && all_eq(self.highest.window.view(), h) && all_eq(self.lowest.window.view(), l) }
+}
+pub proof fn donchian_const_step(pre: &DonchianChannelInstance, high: ValueType, low: ValueType, post: &DonchianChannelInstance, upper: ValueType, lower: ValueType)
+	requires pre.const_state(high@, low@), post.inv(), Highest::step(&pre.highest, &high, &post.highest, &upper), Lowest::step(&pre.lowest, &low, &post.lowest, &lower)
+	ensures upper@ == high@, lower@ == low@, post.const_state(high@, low@)
+{
+	let (a, b) = (post.highest.window.view(), post.lowest.window.view());
+	assert forall|i: int| 0 <= i < a.len() implies (#[trigger] a[i])@ == high@ by { if i < a.len() - 1 { assert(a[i] == pre.highest.window.view()[i + 1]); } }
+	assert forall|i: int| 0 <= i < b.len() implies (#[trigger] b[i])@ == low@ by { if i < b.len() - 1 { assert(b[i] == pre.lowest.window.view()[i + 1]); } }
 }
 
 // ================================================================== PriceChannelStrategy
